@@ -11,7 +11,10 @@ equal answers).  Proved here, for all inputs:
   `C06_parseId_*`, `C06_flagsLoop_*`), and their fuel suffices;
 * `C06_error_pos`: a reported parse-error position is at most the pattern length;
 * `C06_parse_no_panic`: on valid UTF-8 the parser never panics;
-* `C06_depth`: the depth of the tree is bounded by a constant times `MAX_RECURSION`.
+* `C06_depth`: the depth of the tree is bounded by a constant times `MAX_RECURSION`;
+* `C06_parse_total`: the fuel of the model's descent is never exhausted, so the model parser ends
+  with `ok` or `err` on every string (the descent needs at most
+  `2·(bytes left) + 8·(nesting levels left) + 7` frames).
 
 "Valid UTF-8" enters only through `WF re`: stepping from a character boundary by
 `codepoint_len` of the byte there lands on a character boundary (`WF_bytesOf`: true of the bytes
@@ -889,9 +892,11 @@ end
 def AlnumOK (isAlnum : Char → Bool) : Prop :=
   isAlnum '\'' = false ∧ isAlnum '>' = false ∧ isAlnum ')' = false
 
-/-- a literal holds exactly one character (what the `debug_assert_eq!` of `parse_class` checks) -/
+/-- a literal holds exactly one character (what the `debug_assert_eq!` of `parse_class` checks),
+    an alternation is not empty (what `alternatives.remove(0)` of `parse_conditional` relies on) -/
 def lit1 : Expr → Prop
   | .literal v _ => v.length = 1
+  | .alt es => es ≠ []
   | _ => True
 
 /-- outcome of the functions that parse one item at `ix`: progress, a boundary, a shallow tree,
@@ -1404,5 +1409,591 @@ theorem C06_flagsLoop_bounds {re : Bytes} (hwf : WF re) (fl : Flags) {start : Na
   · rw [e] at h; exact h
   · rw [e] at h; exact h
   · rw [e] at h; exact h
+
+/-! ## The recursive descent -/
+
+/-- `MAX_RECURSION` -/
+abbrev M : Nat := Generated.maxRecursion
+
+/-- depth budgets at nesting depth `d` -/
+def Rb (d : Nat) : Nat := 5 * (M - d) + 6
+
+/-- outcome of a descent function started at `ix`: not to the left, on a boundary, depth bounded -/
+def Node (re : Bytes) (ix D : Nat) (r : Nat × Expr × PState) : Prop :=
+  ix ≤ r.1 ∧ isBoundary re r.1 = true ∧ depth r.2.1 ≤ D ∧ lit1 r.2.1
+
+/-- the same for the two loops, which return the list of children -/
+def NodeL (re : Bytes) (ix D : Nat) (r : Nat × List Expr × PState) : Prop :=
+  ix ≤ r.1 ∧ isBoundary re r.1 = true ∧ depthList r.2.1 ≤ D ∧ ∀ e ∈ r.2.1, lit1 e
+
+theorem Item.node {re : Bytes} {ix d D : Nat} {r : Nat × Expr × PState} (h : Item re ix d r)
+    (hd : d ≤ D) : Node re ix D r :=
+  ⟨Nat.le_of_lt h.1, h.2.1, Nat.le_trans h.2.2.1 hd, h.2.2.2⟩
+
+/-- the induction hypothesis of the descent: all functions at fuel `f`, each with the fuel it
+    needs: `2·(bytes left) + 8·(levels left) + c` -/
+structure Desc (re : Bytes) (isAlnum : Char → Bool) (f : Nat) : Prop where
+  re_ : ∀ st ix d, isBoundary re ix = true →
+    2 * (re.size - ix) + 8 * (M - d) + 6 ≤ f →
+    GoodS re (Node re ix (Rb d)) (parseRe isAlnum f re st ix d)
+  alt_ : ∀ st ix d, isBoundary re ix = true →
+    2 * (re.size - ix) + 8 * (M - d) + 5 ≤ f →
+    GoodS re (NodeL re ix (Rb d - 1)) (reAltLoop isAlnum f re st ix d)
+  branch_ : ∀ st ix d, isBoundary re ix = true →
+    2 * (re.size - ix) + 8 * (M - d) + 5 ≤ f →
+    GoodS re (Node re ix (Rb d - 1)) (parseBranch isAlnum f re st ix d)
+  bloop_ : ∀ st ix d, isBoundary re ix = true →
+    2 * (re.size - ix) + 8 * (M - d) + 4 ≤ f →
+    GoodS re (NodeL re ix (Rb d - 2)) (branchLoop isAlnum f re st ix d)
+  piece_ : ∀ st ix d, isBoundary re ix = true →
+    2 * (re.size - ix) + 8 * (M - d) + 3 ≤ f →
+    GoodS re (Node re ix (Rb d - 2)) (parsePiece isAlnum f re st ix d)
+  atom_ : ∀ st ix d, isBoundary re ix = true →
+    2 * (re.size - ix) + 8 * (M - d) + 2 ≤ f →
+    GoodS re (Node re ix (Rb d - 4)) (parseAtom isAlnum f re st ix d)
+  group_ : ∀ st ix d, re[ix]? = some (ch '(') →
+    2 * (re.size - ix) + 8 * (M - d) + 1 ≤ f →
+    GoodS re (Node re ix (Rb d - 4)) (parseGroup isAlnum f re st ix d)
+  flags_ : ∀ st ix d, re[ix]? = some (ch '?') →
+    2 * (re.size - ix) + 8 * (M - d) + 7 ≤ f →
+    GoodS re (Node re ix (Rb d)) (parseFlags isAlnum f re st ix d)
+  cond_ : ∀ st ix d, isBoundary re ix = true →
+    2 * (re.size - ix) + 8 * (M - d) + 7 ≤ f →
+    GoodS re (Node re ix (Rb d + 1)) (parseConditional isAlnum f re st ix d)
+
+theorem Rb_ge (d : Nat) : 6 ≤ Rb d := by unfold Rb; omega
+
+variable {re : Bytes} {isAlnum : Char → Bool}
+
+theorem step_parseRe (hwf : WF re) {f : Nat} (h : Desc re isAlnum f) (st : PState) (ix d : Nat)
+    (hb : isBoundary re ix = true)
+    (hf : 2 * (re.size - ix) + 8 * (M - d) + 6 ≤ f + 1) :
+    GoodS re (Node re ix (Rb d)) (parseRe isAlnum (f + 1) re st ix d) := by
+  have hR := Rb_ge d
+  unfold parseRe
+  refine GoodS.bind (h.branch_ st ix d hb (by omega)) (fun r hr => ?_)
+  obtain ⟨ix1, child, st1⟩ := r
+  obtain ⟨h1, h2, h3, hl⟩ := hr
+  try simp only at h1 h2 h3 hl ⊢
+  refine GoodS.bind (goodS_optWs' hwf _ h2) (fun ix2 h4 => ?_)
+  refine GoodS.bind (goodS_sliceFrom _ h4.2) (fun _ _ => ?_)
+  refine GoodS.ite (fun _ => ?_) (fun _ => ?_)
+  · refine GoodS.bind (h.alt_ st1 ix2 d h4.2 (by omega)) (fun r hr => ?_)
+    obtain ⟨ix3, rest, st3⟩ := r
+    obtain ⟨h5, h6, h7, _⟩ := hr
+    try simp only at h5 h6 h7 ⊢
+    exact ⟨by omega, h6, by simp only [depth, depthList]; omega, by simp [lit1]⟩
+  · try simp only
+    refine GoodS.ite (fun _ => trivial) (fun _ => ?_)
+    exact ⟨by (try simp only); omega, h4.2, by (try simp only); omega, hl⟩
+
+theorem step_reAltLoop (hwf : WF re) {f : Nat} (h : Desc re isAlnum f) (st : PState) (ix d : Nat)
+    (hb : isBoundary re ix = true)
+    (hf : 2 * (re.size - ix) + 8 * (M - d) + 5 ≤ f + 1) :
+    GoodS re (NodeL re ix (Rb d - 1)) (reAltLoop isAlnum (f + 1) re st ix d) := by
+  have hR := Rb_ge d
+  unfold reAltLoop
+  refine GoodS.bind (goodS_sliceFrom _ hb) (fun _ _ => ?_)
+  refine GoodS.ite (fun hc => ?_) (fun _ => ⟨Nat.le_refl _, hb, by simp [depthList], by simp⟩)
+  have hbar : re[ix]? = some (ch '|') := by simpa using hc
+  have hltbar := lt_size_of_get hbar
+  refine GoodS.bind (h.branch_ st (ix + 1) d (hwf.step_ascii hbar (by decide)) (by omega)) (fun r hr => ?_)
+  obtain ⟨ix1, child, st1⟩ := r
+  obtain ⟨h1, h2, h3, hl⟩ := hr
+  try simp only at h1 h2 h3 hl ⊢
+  refine GoodS.bind (goodS_optWs' hwf _ h2) (fun ix2 h4 => ?_)
+  refine GoodS.bind (h.alt_ st1 ix2 d h4.2 (by omega)) (fun r hr => ?_)
+  obtain ⟨ix3, rest, st3⟩ := r
+  obtain ⟨h5, h6, h7, hl2⟩ := hr
+  try simp only at h5 h6 h7 hl2 ⊢
+  refine ⟨by omega, h6, by simp only [depthList]; omega, ?_⟩
+  intro e he
+  rcases List.mem_cons.mp he with rfl | he
+  · exact hl
+  · exact hl2 e he
+
+theorem step_parseBranch (hwf : WF re) {f : Nat} (h : Desc re isAlnum f) (st : PState) (ix d : Nat)
+    (hb : isBoundary re ix = true)
+    (hf : 2 * (re.size - ix) + 8 * (M - d) + 5 ≤ f + 1) :
+    GoodS re (Node re ix (Rb d - 1)) (parseBranch isAlnum (f + 1) re st ix d) := by
+  have hR := Rb_ge d
+  unfold parseBranch
+  refine GoodS.bind (h.bloop_ st ix d hb (by omega)) (fun r hr => ?_)
+  obtain ⟨ix1, children, st1⟩ := r
+  obtain ⟨h1, h2, h3, hl⟩ := hr
+  try simp only at h1 h2 h3 hl ⊢
+  match children, h3, hl with
+  | [], _, _ => exact ⟨h1, h2, by simp only [depth]; omega, by simp [lit1]⟩
+  | [c], h3, hl => exact ⟨h1, h2, by simp only [depthList] at h3; simp only; omega, hl c (by simp)⟩
+  | c1 :: c2 :: cs, h3, _ => exact ⟨h1, h2, by simp only [depth]; omega, by simp [lit1]⟩
+
+theorem step_branchLoop (hwf : WF re) {f : Nat} (h : Desc re isAlnum f) (st : PState) (ix d : Nat)
+    (hb : isBoundary re ix = true)
+    (hf : 2 * (re.size - ix) + 8 * (M - d) + 4 ≤ f + 1) :
+    GoodS re (NodeL re ix (Rb d - 2)) (branchLoop isAlnum (f + 1) re st ix d) := by
+  have hR := Rb_ge d
+  unfold branchLoop
+  refine GoodS.ite (fun _ => ?_) (fun _ => ⟨Nat.le_refl _, hb, by simp [depthList], by simp⟩)
+  refine GoodS.bind (h.piece_ st ix d hb (by omega)) (fun r hr => ?_)
+  obtain ⟨next, child, st1⟩ := r
+  obtain ⟨h1, h2, h3, hl⟩ := hr
+  try simp only at h1 h2 h3 hl ⊢
+  refine GoodS.ite (fun _ => ⟨Nat.le_refl _, hb, by simp [depthList], by simp⟩) (fun hnx => ?_)
+  have hnx' : next ≠ ix := by simpa using hnx
+  have hnsz := isBoundary_le h2
+  refine GoodS.bind (h.bloop_ st1 next d h2 (by omega)) (fun r hr => ?_)
+  obtain ⟨ix3, rest, st3⟩ := r
+  obtain ⟨h5, h6, h7, hl2⟩ := hr
+  try simp only at h5 h6 h7 hl2 ⊢
+  refine ⟨by omega, h6, ?_, ?_⟩
+  · split
+    · exact h7
+    · simp only [depthList]; omega
+  · split
+    · exact hl2
+    · intro e he
+      rcases List.mem_cons.mp he with rfl | he
+      · exact hl
+      · exact hl2 e he
+
+theorem step_parsePiece (hwf : WF re) {f : Nat} (h : Desc re isAlnum f) (st : PState) (ix d : Nat)
+    (hb : isBoundary re ix = true)
+    (hf : 2 * (re.size - ix) + 8 * (M - d) + 3 ≤ f + 1) :
+    GoodS re (Node re ix (Rb d - 2)) (parsePiece isAlnum (f + 1) re st ix d) := by
+  have hR := Rb_ge d
+  unfold parsePiece
+  refine GoodS.bind (h.atom_ st ix d hb (by omega)) (fun r hr => ?_)
+  obtain ⟨ix1, child, st1⟩ := r
+  obtain ⟨h1, h2, h3, hl⟩ := hr
+  try simp only at h1 h2 h3 hl ⊢
+  refine GoodS.bind (goodS_optWs' hwf _ h2) (fun ix2 h4 => ?_)
+  refine GoodS.ite (fun hlt => ?_) (fun _ => ⟨by (try simp only); omega, h4.2, by (try simp only); omega, hl⟩)
+  refine GoodS.bind (goodS_byteAt _ hlt) (fun b hbyte => ?_)
+  refine GoodS.bind (P := fun q => ∀ lo hi i, q = some (lo, hi, i) → ix2 ≤ i ∧
+    isBoundary re (i + 1) = true) ?_ (fun q hq => ?_)
+  · have q0 : ∀ lo hi, b < 128 → GoodS re (fun q => ∀ lo hi i, q = some (lo, hi, i) → ix2 ≤ i ∧
+        isBoundary re (i + 1) = true) (pure (some (lo, hi, ix2)) : Res (Option (Nat × Nat × Nat))) := by
+      intro lo hi hb128 lo' hi' i hi2
+      cases hi2
+      exact ⟨Nat.le_refl _, hwf.step_ascii hbyte hb128⟩
+    refine GoodS.ite (fun hc => q0 _ _ (by have : b = ch '?' := by simpa using hc
+                                           subst this; decide)) (fun _ => ?_)
+    refine GoodS.ite (fun hc => q0 _ _ (by have : b = ch '*' := by simpa using hc
+                                           subst this; decide)) (fun _ => ?_)
+    refine GoodS.ite (fun hc => q0 _ _ (by have : b = ch '+' := by simpa using hc
+                                           subst this; decide)) (fun _ => ?_)
+    refine GoodS.ite (fun hc => ?_) (fun _ => by intro lo hi i hi2; cases hi2)
+    have hbr : b = ch '{' := by simpa using hc
+    subst hbr
+    have hrep := goodS_parseRepeat hwf st1.flags hbyte
+    cases hres : parseRepeat re st1.flags ix2 with
+    | ok r =>
+      rw [hres] at hrep
+      obtain ⟨next, lo, hi⟩ := r
+      obtain ⟨hr1, hr2⟩ := hrep
+      simp only at hr1 hr2 ⊢
+      refine GoodS.ite (fun hz => ?_) (fun _ => ?_)
+      · have : next = 0 := by simpa using hz
+        omega
+      · intro lo' hi' i hi2
+        cases hi2
+        exact ⟨by omega, by rwa [show next - 1 + 1 = next by omega]⟩
+    | err k p => intro lo hi i hi2; cases hi2
+    | cerr => intro lo hi i hi2; cases hi2
+    | panic s => rw [hres] at hrep; exact hrep.elim
+    | outOfFuel => rw [hres] at hrep; exact hrep.elim
+  · cases q with
+    | none => exact ⟨by (try simp only); omega, h4.2, by (try simp only); omega, hl⟩
+    | some p =>
+      obtain ⟨lo, hi, i⟩ := p
+      obtain ⟨hq1, hq2⟩ := hq _ _ _ rfl
+      simp only
+      have hisz := isBoundary_le hq2
+      refine GoodS.ite (fun _ => by simp only [GoodS_err]; omega) (fun _ => ?_)
+      refine GoodS.bind (goodS_optWs' hwf _ hq2) (fun ix3 h6 => ?_)
+      have hb4 : isBoundary re
+          (if (decide (ix3 < re.size) && re[ix3]? == some (ch '?')) = true then ix3 + 1 else ix3) = true := by
+        split
+        · rename_i hc
+          have := ((Bool.and_eq_true _ _).mp hc).2
+          exact hwf.step_ascii (by simpa using this) (by decide)
+        · exact h6.2
+      have hle4 : ix3 ≤
+          (if (decide (ix3 < re.size) && re[ix3]? == some (ch '?')) = true then ix3 + 1 else ix3) := by
+        split <;> omega
+      generalize (if (decide (ix3 < re.size) && re[ix3]? == some (ch '?')) = true then ix3 + 1 else ix3)
+        = ix4 at hb4 hle4 ⊢
+      refine GoodS.ite (fun hc => ?_) (fun _ => ?_)
+      · have := ((Bool.and_eq_true _ _).mp hc).2
+        refine ⟨by (try simp only); omega, hwf.step_ascii (by simpa using this) (by decide), ?_, by simp [lit1]⟩
+        simp only [depth]; omega
+      · refine ⟨by (try simp only); omega, hb4, ?_, by simp [lit1]⟩
+        simp only [depth]; omega
+
+theorem Node.mono {re : Bytes} {ix ix' D D' : Nat} {r : Nat × Expr × PState}
+    (h : Node re ix' D' r) (h1 : ix ≤ ix') (h2 : D' ≤ D) : Node re ix D r :=
+  ⟨Nat.le_trans h1 h.1, h.2.1, Nat.le_trans h.2.2.1 h2, h.2.2.2⟩
+
+theorem step_parseAtom (hwf : WF re) (hal : AlnumOK isAlnum) {f : Nat} (h : Desc re isAlnum f)
+    (st : PState) (ix d : Nat) (hb : isBoundary re ix = true)
+    (hf : 2 * (re.size - ix) + 8 * (M - d) + 2 ≤ f + 1) :
+    GoodS re (Node re ix (Rb d - 4)) (parseAtom isAlnum (f + 1) re st ix d) := by
+  have hR := Rb_ge d
+  unfold parseAtom
+  refine GoodS.bind (goodS_optWs' hwf _ hb) (fun ix1 h1 => ?_)
+  refine GoodS.ite (fun _ => ⟨h1.1, h1.2, by simp only [depth]; omega, by simp [lit1]⟩) (fun hne => ?_)
+  have hlt := lt_of_ne_size h1.2 hne
+  refine GoodS.bind (goodS_byteAt _ hlt) (fun b hbyte => ?_)
+  have one : ∀ (e : Expr), b < 128 → depth e = 1 → lit1 e →
+      GoodS re (Node re ix (Rb d - 4)) (.ok (ix1 + 1, e, st)) :=
+    fun e hb128 he hl => ⟨by (try simp only); omega, hwf.step_ascii hbyte hb128, by (try simp only); omega, hl⟩
+  refine GoodS.ite (fun hc => one _ (by have : b = ch '.' := by simpa using hc
+                                        subst this; decide) (by simp [depth]) (by first | simp [lit1] | (split <;> simp [lit1]))) (fun _ => ?_)
+  refine GoodS.ite (fun hc => one _ (by have : b = ch '^' := by simpa using hc
+                                        subst this; decide) (by simp [depth]) (by first | simp [lit1] | (split <;> simp [lit1]))) (fun _ => ?_)
+  refine GoodS.ite (fun hc => one _ (by have : b = ch '$' := by simpa using hc
+                                        subst this; decide) (by simp [depth]) (by first | simp [lit1] | (split <;> simp [lit1]))) (fun _ => ?_)
+  refine GoodS.ite (fun hc => ?_) (fun _ => ?_)
+  · have : b = ch '(' := by simpa using hc
+    subst this
+    exact (h.group_ st ix1 d hbyte (by omega)).mono fun r hr => hr.mono h1.1 (Nat.le_refl _)
+  refine GoodS.ite (fun hc => ?_) (fun _ => ?_)
+  · have : b = ch '\\' := by simpa using hc
+    subst this
+    exact (goodS_parseEscape hwf hal st false hbyte).mono fun r hr =>
+      (hr.node (by omega)).mono h1.1 (Nat.le_refl _)
+  refine GoodS.ite (fun hc => ⟨h1.1, h1.2, by simp only [depth]; omega, by simp [lit1]⟩) (fun _ => ?_)
+  refine GoodS.ite (fun hc => ?_) (fun _ => ?_)
+  · have : b = ch '[' := by simpa using hc
+    subst this
+    exact (goodS_parseClass hwf hal st hbyte).mono fun r hr =>
+      (hr.node (by omega)).mono h1.1 (Nat.le_refl _)
+  · have hbe := hwf.step hbyte h1.2
+    have hpos := codepointLen_pos b
+    refine GoodS.bind (goodS_slice _ (by omega) h1.2 hbe) (fun s hs => ?_)
+    subst hs
+    exact ⟨by (try simp only); omega, hbe, by simp only [depth]; omega,
+      by simpa [lit1] using decode_char_slice hbyte (isBoundary_le hbe)⟩
+
+theorem Rb_succ {d : Nat} (h : ¬ d + 1 ≥ M) : Rb (d + 1) + 5 = Rb d := by
+  unfold Rb; omega
+
+theorem lookOf_boundary (hwf : WF re) {ix skip : Nat} {la : Look} (hb : isBoundary re ix = true)
+    (h : lookOf re ix = some (la, skip)) : isBoundary re (ix + skip) = true := by
+  unfold lookOf at h
+  split at h
+  · rename_i hs; cases h
+    exact startsWithAt_boundary hwf _ ix (by intro c hc; simp [ch] at hc; omega) hs hb
+  split at h
+  · rename_i hs; cases h
+    exact startsWithAt_boundary hwf _ ix (by intro c hc; simp [ch] at hc; omega) hs hb
+  split at h
+  · rename_i hs; cases h
+    exact startsWithAt_boundary hwf _ ix (by intro c hc; simp [ch] at hc; omega) hs hb
+  split at h
+  · rename_i hs; cases h
+    exact startsWithAt_boundary hwf _ ix (by intro c hc; simp [ch] at hc; omega) hs hb
+  · cases h
+
+theorem step_parseGroup (hwf : WF re) (hal : AlnumOK isAlnum) {f : Nat} (h : Desc re isAlnum f)
+    (st : PState) (ix d : Nat) (hg : re[ix]? = some (ch '('))
+    (hf : 2 * (re.size - ix) + 8 * (M - d) + 1 ≤ f + 1) :
+    GoodS re (Node re ix (Rb d - 4)) (parseGroup isAlnum (f + 1) re st ix d) := by
+  have hR := Rb_ge d
+  have hb0 : isBoundary re ix = true := isBoundary_of_ascii hg (by decide)
+  have hix := isBoundary_le hb0
+  unfold parseGroup
+  refine GoodS.ite (fun _ => by simpa using hix) (fun hd => ?_)
+  have hRs := Rb_succ hd
+  have hM : M = Generated.maxRecursion := rfl
+  refine GoodS.bind (goodS_optWs' hwf _ (hwf.step_ascii hg (by decide))) (fun ix1 h1 => ?_)
+  refine GoodS.bind (goodS_sliceFrom _ h1.2) (fun _ _ => ?_)
+  extract_lets body st2
+  have hbody : ∀ la skip st', isBoundary re (ix1 + skip) = true →
+      GoodS re (Node re ix (Rb d - 4)) (body la skip st') := by
+    intro la skip st' hbs
+    have hbsz := isBoundary_le hbs
+    simp only [body]
+    refine GoodS.bind (h.re_ st' (ix1 + skip) (d + 1) hbs (by omega)) (fun r hr => ?_)
+    obtain ⟨ix2, child, st3⟩ := r
+    obtain ⟨h2, h3, h4, _⟩ := hr
+    try simp only at h2 h3 h4 ⊢
+    refine GoodS.bind (goodS_checkForCloseParen hwf _ h3) (fun ix3 h5 => ?_)
+    cases la with
+    | some la => exact ⟨by (try simp only); omega, h5.2, by simp only [depth]; omega, by simp [lit1]⟩
+    | none =>
+      simp only
+      refine GoodS.ite (fun _ => ?_) (fun _ => ?_)
+      · exact ⟨by (try simp only); omega, h5.2, by simp only [depth]; omega, by simp [lit1]⟩
+      · exact ⟨by (try simp only); omega, h5.2, by simp only [depth]; omega, by simp [lit1]⟩
+  clear_value body
+  cases hlook : lookOf re ix1 with
+  | some p =>
+    obtain ⟨la, skip⟩ := p
+    simp only
+    exact hbody _ _ _ (lookOf_boundary hwf h1.2 hlook)
+  | none =>
+    simp only
+    -- (?<name>
+    refine GoodS.ite (fun hs => ?_) (fun _ => ?_)
+    · have hq : re[ix1]? = some (ch '?') := (startsWithAt_head hs).1
+      have hb1 := hwf.step_ascii hq (by decide)
+      refine GoodS.bind (goodS_sliceFrom _ hb1) (fun _ _ => ?_)
+      refine GoodS.bind (goodS_parseId hwf isAlnum false hb1 (ascii1 _ (by decide)) (ascii1 _ (by decide))
+        (by simp) (idChar_gt hal)) (fun r hr => ?_)
+      cases r with
+      | none => simpa using isBoundary_le h1.2
+      | some p =>
+        obtain ⟨a, b, skip⟩ := p
+        have := (hr _ _ _ rfl).2
+        simp only
+        exact hbody _ _ _ (by rwa [show ix1 + (skip + 1) = ix1 + 1 + skip by omega])
+    -- (?P<name>
+    refine GoodS.ite (fun hs => ?_) (fun _ => ?_)
+    · have hq : re[ix1]? = some (ch '?') := (startsWithAt_head hs).1
+      have hP : re[ix1 + 1]? = some (ch 'P') := (startsWithAt_head (startsWithAt_head hs).2).1
+      have hb2 := hwf.step_ascii hP (by decide)
+      refine GoodS.bind (goodS_sliceFrom _ hb2) (fun _ _ => ?_)
+      refine GoodS.bind (goodS_parseId hwf isAlnum false hb2 (ascii1 _ (by decide)) (ascii1 _ (by decide))
+        (by simp) (idChar_gt hal)) (fun r hr => ?_)
+      cases r with
+      | none => simpa using isBoundary_le h1.2
+      | some p =>
+        obtain ⟨a, b, skip⟩ := p
+        have := (hr _ _ _ rfl).2
+        simp only
+        exact hbody _ _ _ (by rwa [show ix1 + (skip + 2) = ix1 + 1 + 1 + skip by omega])
+    -- (?P=name)
+    refine GoodS.ite (fun hs => ?_) (fun _ => ?_)
+    · have hb3 := startsWithAt_boundary hwf _ ix1 (by intro c hc; simp [ch] at hc; omega) hs h1.2
+      exact (goodS_namedParen hwf hal st _ hb3).mono fun r hr =>
+        (hr.node (by omega)).mono (by simp only [List.length_cons, List.length_nil]; omega) (Nat.le_refl _)
+    -- (?>
+    refine GoodS.ite (fun hs => ?_) (fun _ => ?_)
+    · exact hbody _ _ _ (startsWithAt_boundary hwf _ ix1 (by intro c hc; simp [ch] at hc; omega) hs h1.2)
+    -- (?(
+    refine GoodS.ite (fun hs => ?_) (fun _ => ?_)
+    · have hb3 := startsWithAt_boundary hwf _ ix1 (by intro c hc; simp [ch] at hc; omega) hs h1.2
+      have hb3sz := isBoundary_le hb3
+      simp only [List.length_cons, List.length_nil] at hb3sz
+      exact (h.cond_ st _ (d + 1) hb3 (by simp only [List.length_cons, List.length_nil]; omega)).mono fun r hr =>
+        hr.mono (by simp only [List.length_cons, List.length_nil]; omega) (by omega)
+    -- (?P>name)
+    refine GoodS.ite (fun hs => ?_) (fun _ => ?_)
+    · have hb3 := startsWithAt_boundary hwf _ ix1 (by intro c hc; simp [ch] at hc; omega) hs h1.2
+      exact (goodS_namedParen hwf hal st _ hb3).mono fun r hr =>
+        (hr.node (by omega)).mono (by simp only [List.length_cons, List.length_nil]; omega) (Nat.le_refl _)
+    -- (?flags
+    refine GoodS.ite (fun hs => ?_) (fun _ => ?_)
+    · have hq : re[ix1]? = some (ch '?') := (startsWithAt_head hs).1
+      have h1sz := isBoundary_le h1.2
+      exact (h.flags_ st ix1 (d + 1) hq (by omega)).mono fun r hr => hr.mono (by omega) (by omega)
+    · exact hbody _ _ _ (by simpa using h1.2)
+
+theorem step_parseFlags (hwf : WF re) {f : Nat} (h : Desc re isAlnum f)
+    (st : PState) (ix d : Nat) (hg : re[ix]? = some (ch '?'))
+    (hf : 2 * (re.size - ix) + 8 * (M - d) + 7 ≤ f + 1) :
+    GoodS re (Node re ix (Rb d)) (parseFlags isAlnum (f + 1) re st ix d) := by
+  have hR := Rb_ge d
+  have hbs : isBoundary re (ix + 1) = true := hwf.step_ascii hg (by decide)
+  unfold parseFlags
+  refine GoodS.bind (goodS_flagsLoop hwf hbs (re.size + 2) st.flags (ix + 1) false (Nat.le_refl _) hbs
+    (by omega)) (fun r hr => ?_)
+  obtain ⟨e, fl⟩ := r
+  try simp only at hr ⊢
+  cases e with
+  | close i =>
+    obtain ⟨h1, h2⟩ := hr
+    exact ⟨by (try simp only); omega, hwf.step_ascii h2 (by decide), by simp only [depth]; omega,
+      by simp [lit1]⟩
+  | colon i =>
+    obtain ⟨h1, h2⟩ := hr
+    simp only
+    refine GoodS.bind (h.re_ _ (i + 1) d (hwf.step_ascii h2 (by decide)) (by omega)) (fun r hr => ?_)
+    obtain ⟨ix2, child, st2⟩ := r
+    obtain ⟨h3, h4, h5, hl⟩ := hr
+    try simp only at h3 h4 h5 hl ⊢
+    refine GoodS.ite (fun _ => by simpa using isBoundary_le h4) (fun hne => ?_)
+    refine GoodS.bind (goodS_byteAt _ (lt_of_ne_size h4 hne)) (fun b hb => ?_)
+    refine GoodS.ite (fun _ => by simpa using isBoundary_le h4) (fun hc => ?_)
+    have : b = ch ')' := by simpa using hc
+    subst this
+    exact ⟨by (try simp only); omega, hwf.step_ascii hb (by decide), h5, hl⟩
+
+theorem step_parseConditional (hwf : WF re) (hal : AlnumOK isAlnum) {f : Nat} (h : Desc re isAlnum f)
+    (st : PState) (ix d : Nat) (hb : isBoundary re ix = true)
+    (hf : 2 * (re.size - ix) + 8 * (M - d) + 7 ≤ f + 1) :
+    GoodS re (Node re ix (Rb d + 1)) (parseConditional isAlnum (f + 1) re st ix d) := by
+  have hR := Rb_ge d
+  have hix := isBoundary_le hb
+  unfold parseConditional
+  refine GoodS.ite (fun _ => by simpa using hix) (fun hge => ?_)
+  refine GoodS.bind (goodS_byteAt _ (by omega)) (fun b hbyte => ?_)
+  refine GoodS.bind (P := Node re ix (Rb d)) ?_ (fun r hr => ?_)
+  · refine GoodS.ite (fun _ => ?_) (fun _ => ?_)
+    · exact (goodS_parseNumberedBackref hwf st hb _).mono fun r hr => hr.node (by omega)
+    refine GoodS.ite (fun _ => ?_) (fun _ => ?_)
+    · exact (goodS_namedQuote hwf hal st _ hb).mono fun r hr => hr.node (by omega)
+    refine GoodS.ite (fun _ => ?_) (fun _ => ?_)
+    · exact (goodS_namedAngle hwf hal st _ hb).mono fun r hr => hr.node (by omega)
+    · exact h.re_ st ix d hb (by omega)
+  obtain ⟨next, condition, st1⟩ := r
+  obtain ⟨h1, h2, h3, hl⟩ := hr
+  try simp only at h1 h2 h3 hl ⊢
+  refine GoodS.bind (goodS_checkForCloseParen hwf _ h2) (fun next2 h4 => ?_)
+  refine GoodS.bind (h.re_ st1 next2 d h4.2 (by omega)) (fun r hr => ?_)
+  obtain ⟨end_, child, st2⟩ := r
+  obtain ⟨h5, h6, h7, hl2⟩ := hr
+  try simp only at h5 h6 h7 hl2 ⊢
+  refine GoodS.ite (fun _ => ?_) (fun _ => ?_)
+  · -- `(?(1))`
+    split
+    · refine GoodS.bind (goodS_checkForCloseParen hwf _ h6) (fun after h8 => ?_)
+      exact ⟨by (try simp only); omega, h8.2, by simp only [depth]; omega, by simp [lit1]⟩
+    · simpa using isBoundary_le h6
+  · refine GoodS.bind (P := fun br => depth br.1 ≤ Rb d ∧ depth br.2 ≤ Rb d) ?_ (fun br hbr => ?_)
+    · split
+      · -- `Expr::Alt(alternatives) if has_else`
+        rename_i alternatives _
+        simp only [depth] at h7
+        cases alternatives with
+        | nil => exact absurd rfl hl2
+        | cons t rest =>
+          simp only [depthList] at h7
+          simp only
+          split
+          · rename_i e
+            simp only [depthList] at h7
+            exact ⟨by (try simp only); omega, by (try simp only); omega⟩
+          · exact ⟨by (try simp only); omega, by simp only [depth]; omega⟩
+      · exact ⟨h7, by simp only [depth]; omega⟩
+    · refine GoodS.bind (goodS_checkForCloseParen hwf _ h6) (fun after h8 => ?_)
+      refine GoodS.ite (fun _ => ?_) (fun _ => ?_)
+      · refine ⟨by (try simp only); omega, h8.2, ?_, ?_⟩
+        · (try simp only)
+          split
+          · simp only [depth]; omega
+          · omega
+        · (try simp only)
+          split
+          · simp [lit1]
+          · exact hl
+      · refine ⟨by (try simp only); omega, h8.2, ?_, by simp [lit1]⟩
+        simp only [depth]
+        split
+        · simp only [depth]; omega
+        · omega
+
+/-- the invariant of the recursive descent, for every fuel -/
+theorem desc (hwf : WF re) (hal : AlnumOK isAlnum) : ∀ f, Desc re isAlnum f := by
+  intro f
+  induction f with
+  | zero =>
+    constructor
+    · intro st ix d _ hf; omega
+    · intro st ix d _ hf; omega
+    · intro st ix d _ hf; omega
+    · intro st ix d _ hf; omega
+    · intro st ix d _ hf; omega
+    · intro st ix d _ hf; omega
+    · intro st ix d _ hf; omega
+    · intro st ix d _ hf; omega
+    · intro st ix d _ hf; omega
+  | succ f ih =>
+    exact {
+      re_ := step_parseRe hwf ih
+      alt_ := step_reAltLoop hwf ih
+      branch_ := step_parseBranch hwf ih
+      bloop_ := step_branchLoop hwf ih
+      piece_ := step_parsePiece hwf ih
+      atom_ := step_parseAtom hwf hal ih
+      group_ := step_parseGroup hwf hal ih
+      flags_ := step_parseFlags hwf ih
+      cond_ := step_parseConditional hwf hal ih }
+
+/-- the whole parser on well-formed bytes -/
+theorem good_parseBytes (hwf : WF re) (hal : AlnumOK isAlnum) (casei : Bool) :
+    GoodS re (fun t => depth t.expr ≤ 5 * Generated.maxRecursion + 6)
+      (parseBytes isAlnum re casei) := by
+  unfold parseBytes
+  have h := (desc hwf hal (descentFuel re.size)).re_
+    { flags := { casei := casei } } 0 0 (isBoundary_zero re)
+    (by have hM : M = Generated.maxRecursion := rfl
+        simp only [descentFuel]; omega)
+  simp only
+  cases hres : parseRe isAlnum (descentFuel re.size) re { flags := { casei := casei } } 0 0 with
+  | ok r =>
+    rw [hres] at h
+    obtain ⟨ix, e, st⟩ := r
+    obtain ⟨_, h2, h3, _⟩ := h
+    simp only at h2 h3 ⊢
+    split
+    · simpa using isBoundary_le h2
+    · simpa [Rb, M] using h3
+  | err k p => rw [hres] at h; exact h
+  | cerr => trivial
+  | panic s => rw [hres] at h; exact h.elim
+  | outOfFuel => rw [hres] at h; exact h.elim
+
+/-- **C06_error_pos**: whatever the pattern, a reported parse-error position is at most the
+    length of the pattern (in bytes) -/
+theorem C06_error_pos (isAlnum : Char → Bool) (hal : AlnumOK isAlnum) (cs : List Char)
+    (casei : Bool) (k : PErr) (p : Nat) (h : parseStr isAlnum cs casei = .err k p) :
+    p ≤ (bytesOf cs).size :=
+  (good_parseBytes (WF_bytesOf cs) hal casei).good.err_pos h
+
+/-- **C06_parse_no_panic**: on every string (valid UTF-8 by construction) no panic site of the
+    parser is reached: no slice off a character boundary or out of range, no index out of range,
+    no failing `unwrap`/`expect`/`remove(0)`, no `next - 1` underflow, no failing `debug_assert` -/
+theorem C06_parse_no_panic (isAlnum : Char → Bool) (hal : AlnumOK isAlnum) (cs : List Char)
+    (casei : Bool) (site : String) : parseStr isAlnum cs casei ≠ .panic site :=
+  (good_parseBytes (WF_bytesOf cs) hal casei).good.not_panic site
+
+/-- **C06_depth**: the tree of a pattern that parses is at most `5·MAX_RECURSION + 6` deep, so
+    the recursions of the analyzer, the compiler and `to_str` over it are bounded -/
+theorem C06_depth (isAlnum : Char → Bool) (hal : AlnumOK isAlnum) (cs : List Char)
+    (casei : Bool) (t : Tree) (h : parseStr isAlnum cs casei = .ok t) :
+    depth t.expr ≤ 5 * Generated.maxRecursion + 6 :=
+  (good_parseBytes (WF_bytesOf cs) hal casei).good.ok_val h
+
+/-- **C06_parse_total**: the fuel `parse` gives the descent (`4·len + 16·MAX_RECURSION + 64`) is
+    never exhausted: with `C06_parse_no_panic`, parsing any string ends with `Ok` or `Err` -/
+theorem C06_parse_total (isAlnum : Char → Bool) (hal : AlnumOK isAlnum) (cs : List Char)
+    (casei : Bool) : parseStr isAlnum cs casei ≠ .outOfFuel := by
+  intro e
+  have h := good_parseBytes (isAlnum := isAlnum) (WF_bytesOf cs) hal casei
+  unfold parseStr at e
+  rw [e] at h
+  exact h
+
+/-- the same four facts for any well-formed byte array -/
+theorem C06_parseBytes (isAlnum : Char → Bool) (hal : AlnumOK isAlnum) (re : Bytes) (hwf : WF re)
+    (casei : Bool) :
+    (∀ k p, parseBytes isAlnum re casei = .err k p → p ≤ re.size) ∧
+    (∀ s, parseBytes isAlnum re casei ≠ .panic s) ∧
+    (∀ t, parseBytes isAlnum re casei = .ok t → depth t.expr ≤ 5 * Generated.maxRecursion + 6) ∧
+    parseBytes isAlnum re casei ≠ .outOfFuel :=
+  ⟨fun _ _ h => (good_parseBytes hwf hal casei).good.err_pos h,
+   fun s => (good_parseBytes hwf hal casei).good.not_panic s,
+   fun _ h => (good_parseBytes hwf hal casei).good.ok_val h,
+   fun e => by
+     have h := good_parseBytes (isAlnum := isAlnum) hwf hal casei
+     rw [e] at h; exact h⟩
+
+/-- an `is_alphanumeric` satisfying the assumption (the ASCII one; the table of the driver, which
+    is compared with `char::is_alphanumeric` on every run, agrees with it on ASCII) -/
+example : AlnumOK (fun c => c.isAlphanum) := ⟨by decide, by decide, by decide⟩
+
+/-- (for the examples) the outcome is an error at position `p` -/
+def isErrAt (r : Res Tree) (p : Nat) : Bool := match r with | .err _ q => q == p | _ => false
+/-- (for the examples) the outcome is a tree of depth `d` -/
+def isOkDepth (r : Res Tree) (d : Nat) : Bool := match r with | .ok t => depth t.expr == d | _ => false
+
+-- `a(b`: the error position 3 is the length; `(?#\`: the position is the length, not beyond it;
+-- `(é|b)*\1` parses to a tree of depth 5 (concat, repeat, group, alt, literal)
+example : isErrAt (parseStr (fun c => c.isAlphanum) "a(b".toList false) 3 = true := by decide +kernel
+example : isErrAt (parseStr (fun c => c.isAlphanum) "(?#\\".toList false) 4 = true := by decide +kernel
+example : isOkDepth (parseStr (fun c => c.isAlphanum) "(é|b)*\\1".toList false) 5 = true := by
+  decide +kernel
 
 end Fancy.Parse
